@@ -32,6 +32,7 @@ type vfC14Case struct {
 // ---- scripted I/O ----
 
 var errVerifBody = errors.New("verif: injected body error")
+var errVerifClose = errors.New("verif: injected close error")
 
 type vfReadRec struct {
 	N   int
@@ -52,6 +53,9 @@ type vfScriptReader struct {
 
 func vfNewScriptReader(spec vfBodySpec, cuts []int) *vfScriptReader {
 	r := &vfScriptReader{body: spec.Body, cuts: append([]int{}, cuts...), end: spec.End, truncated: len(spec.Body), errWithData: spec.ErrWithData}
+	if spec.CloseErr {
+		r.closeErr = errVerifClose
+	}
 	sort.Ints(r.cuts)
 	return r
 }
@@ -349,6 +353,9 @@ func vfC14Check(c vfC14Case) error {
 			reqEndErr = errVerifBody.Error()
 		case c.Req.End == "close-early":
 			reqEndErr = "closed before fully consumed"
+			if c.Req.CloseErr {
+				reqEndErr = "close: " + errVerifClose.Error() // (which text the trace carries is informational; the close did fail)
+			}
 		}
 		reqSeen := len(obs.ReqData)
 		model = append(model, vfModelBody(c.Req, reqSeen, true, reqEndErr)...)
@@ -366,6 +373,9 @@ func vfC14Check(c vfC14Case) error {
 				respEndErr = errVerifBody.Error()
 			case c.Resp.End == "close-early" && c.Side == "client":
 				respEndErr = "closed before fully consumed"
+				if c.Resp.CloseErr {
+					respEndErr = "close: " + errVerifClose.Error()
+				}
 			}
 			if c.Side == "client" && c.Resp.End == "close-early" && vfReadHitEOF(obs.RespLog) {
 				respEndErr = ""
@@ -478,6 +488,7 @@ func vfGenBody(t *rapid.T, label string, response bool) vfBodySpec {
 	// truncation
 	spec.End = rapid.SampledFrom([]string{"eof", "eof", "eof-with-data", "error", "error", "close-early"}).Draw(t, label+"-end")
 	spec.ErrWithData = spec.End == "error" && rapid.Bool().Draw(t, label+"-errWithData")
+	spec.CloseErr = rapid.IntRange(0, 5).Draw(t, label+"-closeErr") == 0
 	if len(body) > 0 && rapid.IntRange(0, 2).Draw(t, label+"-truncate") == 0 {
 		var at int
 		switch rapid.IntRange(0, 2).Draw(t, label+"-trunckind") {
